@@ -86,17 +86,19 @@ func NewSessWorld(c *Ctx, p SessParams, cValve, sValve mux.Valve) *SessWorld {
 	for i := range sw.Key {
 		sw.Key[i] = byte(c.Rng.Uint32())
 	}
-	mk := func(v mux.Valve) *mux.Session {
+	// Singleplex is a client-side setting (ck-client with NumConn=0); ck-server
+	// never sets it: its end is an ordinary multiplexed session
+	mk := func(v mux.Valve, singleplex bool) *mux.Session {
 		obf, err := mux.MakeObfuscator(p.Method, sw.Key)
 		if err != nil {
 			panic(err)
 		}
-		cfg := mux.SessionConfig{Obfuscator: obf, Valve: v, Unordered: p.Unordered, Singleplex: p.Singleplex,
+		cfg := mux.SessionConfig{Obfuscator: obf, Valve: v, Unordered: p.Unordered, Singleplex: singleplex,
 			MsgOnWireSizeLimit: p.WireLimit, InactivityTimeout: time.Duration(p.InactS) * time.Second}
 		return mux.MakeSession(7, cfg)
 	}
-	sw.C = mk(cValve)
-	sw.S = mk(sValve)
+	sw.C = mk(cValve, p.Singleplex)
+	sw.S = mk(sValve, false)
 	c.Net.DefaultPartial = p.Partial
 	n := p.NConn
 	if n < 1 {
